@@ -131,14 +131,22 @@ def apply_event(st, ev, tmpdir, judge=True, history=None):
             # while it waits for the NETWORK_ACK of its routed reply
             other = NW.pack_frame(0o2, 0, (step + 1) & 0xFFFF, 196, INTERLEAVED_RESERVED, bytes([UNKNOWN_LOOKUP_ID]))
             w.at(w.now + 1300 * 1000, GhostShot(g, R.pipe_address(0, 2), other), "fire")
+        # the master's update() for one request needs a few ms of virtual time (route_timeout is 2 ms here); a call that
+        # is still running after 2 s of virtual time does not terminate (cheaper to notice than the CPU guard)
+        w.horizon = w.now + 2000 * MS
         try:
             with cpu_guard(20):
                 ret = m.update()
                 if kind == "reqx":
                     w.advance(2 * MS)
                     m.update()
-        except (HarnessError, Abort):
+            w.horizon = 10 ** 15
+        except HarnessError:
             raise
+        except Abort:
+            w.horizon = 10 ** 15
+            v("not-terminating:request:%s" % via_name(via), "update() still running after 2 s of virtual time on a request of id %d via 0o%o" % (nid, via))
+            return viol, "req:hang"
         except CpuHang:
             v("not-terminating:request:%s" % via_name(via), "update() used 20 s of CPU time without returning on a request of id %d via 0o%o" % (nid, via))
             return viol, "req:hang"
@@ -362,6 +370,11 @@ def w_expand(item, rep):
                 rep.outcome(out)
                 for sig, what in viol:
                     rep.violation(sig, what, {"part": "bfs", "start": start, "history": list(hist) + [ev]})
+                if out == "req:hang":
+                    # a call that does not terminate has been reported; every further one costs seconds: stop here
+                    rep.cap("exploration cut short after a non-terminating update() (%s)" % start)
+                    rep.notes["S|%s|%s" % (start, tag)] = succ
+                    return
                 key = state_key(st2)
                 if collect == "full":
                     succ.append((key, tuple(hist) + (ev,)))
@@ -386,6 +399,10 @@ def bfs_parallel(start, ids, depth, rep, max_states, vias=VIAS, mode="main"):
         step = max(1, min(40, len(frontier) // 28 + 1))
         items = [(start, frontier[i:i + step], ids, "hash" if last else "full", "%d.%d" % (d, i), vias, mode) for i in range(0, len(frontier), step)]
         pmap(w_expand, items, rep)
+        if any("not-terminating" in s_ for s_ in rep.violations):
+            for k in [k for k in rep.notes if k.startswith("S|%s|" % start)]:
+                rep.notes.pop(k)
+            return d, len(seen)
         keys = [k for k in rep.notes if k.startswith("S|%s|" % start)]
         if last:
             hs = set()
